@@ -6,6 +6,7 @@
 -/
 import PDesy.Model.Ser
 import PDesy.Model.Report
+import PDesy.Model.Backward
 
 open PDesy
 
@@ -132,6 +133,38 @@ def handle (model : Option Model) (line : String) : Option Model × String :=
           let a ← Wire.get; let b ← Wire.get; let s ← getSt m; pure (a, b, s)
         match p.run' rest with
         | .ok (a, b, s) => (model, " ".intercalate (putSt m (initProject m a b s)))
+        | .error e => (model, s!"bad-op {e}")
+    | "RM" =>
+      match model with
+      | none => (model, "bad-op no model")
+      | some m =>
+        match (getSt m).run' rest with
+        | .ok s => (model, " ".intercalate (putSt m (removeAbs m s)))
+        | .error e => (model, s!"bad-op {e}")
+    | "INS" =>
+      match model with
+      | none => (model, "bad-op no model")
+      | some m =>
+        let p : P (List Nat × St) := do let l ← Wire.get; let s ← getSt m; pure (l, s)
+        match p.run' rest with
+        | .ok (l, s) => (model, " ".intercalate (putSt m (insertAbs m l s)))
+        | .error e => (model, s!"bad-op {e}")
+    | "REV" =>
+      match model with
+      | none => (model, "bad-op no model")
+      | some m =>
+        match (getSt m).run' rest with
+        | .ok s => (model, " ".intercalate (putSt m (reverseLogs m s)))
+        | .error e => (model, s!"bad-op {e}")
+    | "BWD" =>
+      match model with
+      | none => (model, "bad-op no model")
+      | some m =>
+        let p : P (Params × Bool × Bool × St) := do
+          let ps ← getParams; let a ← Wire.get; let b ← Wire.get; let s ← getSt m; pure (ps, a, b, s)
+        match p.run' rest with
+        | .ok (ps, a, b, s) =>
+          (model, " ".intercalate (putSt m (backwardSimulate m ps a b s) ++ putModel (restored m a)))
         | .error e => (model, s!"bad-op {e}")
     | "FN" =>
       match model with
